@@ -138,6 +138,7 @@ def _b_body(d, i, x, style):
         kw['exclude'] = conv(exc)
     full_exp = D.expected('ekern')
     pre = kp.dumps(doc, encoding=kp.Encoding.eKern, spine_types=heads)            # unfiltered export before ...
+    kp.dumps(doc, encoding=kp.Encoding.bEkern, spine_types=heads, **kw)          # the same pair in a basic encoding first (must leave nothing behind)
     got = kp.dumps(doc, encoding=kp.Encoding.eKern, spine_types=heads, **kw)
     post = kp.dumps(doc, encoding=kp.Encoding.eKern, spine_types=heads)           # ... and after the filtered one
     check(cells.parse_grid(pre) == full_exp, f'unfiltered export {cells.parse_grid(pre)} differs from the cell model {full_exp}')
@@ -156,6 +157,57 @@ def _b_body(d, i, x, style):
     return True
 
 
+# ------------------------------------------------------------------ C05.c larger documents, category groups
+GROUPS = (('DURATION', 'PITCH', 'ALTERATION', 'DECORATION', 'REST', 'CHORD', 'BARLINES', 'EMPTY'),
+          ('HEADER', 'SPINE_OPERATION', 'CLEF', 'KEY_SIGNATURE', 'TIME_SIGNATURE', 'METER_SYMBOL', 'FIELD_COMMENTS', 'LYRICS'),
+          ('DYNAMICS', 'HARMONY', 'FINGERING', 'OTHER', 'OTHER_CONTEXTUAL', 'ENGRAVED_SYMBOLS', 'STRUCTURAL', 'BOUNDING_BOXES'))
+BIG = []
+_BIGCACHE = {}
+
+
+class GroupSet:
+    """token_categories with one symbolic boolean per category of one group; every other category selected."""
+
+    def __init__(self, names, bits):
+        self.m = dict(zip(names, bits))
+
+    def __contains__(self, c):
+        return self.m.get(c.name, True)
+
+    def has(self, name):
+        return self.m.get(name, True)
+
+    def unselected(self):
+        return [n for n, v in self.m.items() if not v]
+
+
+@native
+def get_big(i):
+    if not BIG:
+        BIG.extend(docs.pool())
+    if i not in _BIGCACHE:
+        D = BIG[i]
+        doc, errs = kp.loads(D.text())
+        heads = sorted({c.text for r in D.rows for c in r if c.kind == 'header'})
+        _BIGCACHE[i] = (D, doc, list(errs), heads)
+    return _BIGCACHE[i]
+
+
+def ob_c(d: int, g: int, b0: bool, b1: bool, b2: bool, b3: bool, b4: bool, b5: bool, b6: bool, b7: bool) -> bool:
+    """The six pool documents (two to three spines, split/join, chords, comments, all spine types) under every selection of one
+    category group at a time (the other categories selected)."""
+    assume(0 <= d < 6 and 0 <= g < len(GROUPS))
+    D, doc, errs, heads = get_big(choose(d, 6))
+    gi = choose(g, len(GROUPS))
+    S = GroupSet(GROUPS[gi], (b0, b1, b2, b3, b4, b5, b6, b7))
+    opts = ExportOptions(spine_types=heads, token_categories=S, kern_type=kp.Encoding.eKern)
+    got = Exporter().export_string(doc, opts)
+    exp = D.expected('ekern', keep=S.has)
+    grid = cells.parse_grid(concrete(got))
+    check(cells.rows_equal(grid, exp), lambda: f'unselected={concrete(S.unselected())}: exported {grid}, expected {concrete(exp)}')
+    return True
+
+
 def _desc_a(d, b):
     return {'document': POOL[d].text(), 'selected': [NAMES[i] for i in range(N) if b[i]]}
 
@@ -163,6 +215,11 @@ def _desc_a(d, b):
 UNTRACE = [('kernpy.core.tokens', 'TokenCategoryHierarchyMapper.valid')]
 
 OBLIGATIONS = [
+    Ob(id='C05.c', fn=ob_c, title='pool documents (split/join, chords, comments, all spine types) under every selection within a category group',
+       shard_of=lambda d, g, *bits: d + 6 * g, shards={'quick': 18, 'thorough': 18}, budget_s={'quick': 170, 'thorough': 1800}, untrace=UNTRACE,
+       witnesses=[{'d': 0, 'g': 0, 'b0': True, 'b1': False, 'b2': True, 'b3': True, 'b4': False, 'b5': True, 'b6': True, 'b7': True}], min_confirmed=300,
+       symbolic='eight category bits of one group (all 256 selections; the other categories selected)', enumerated='document (6), category group (3)',
+       bounds={'quick': '6 pool documents x 3 groups of 8 categories', 'thorough': 'same'}),
     Ob(id='C05.a', fn=ob_a, title='export under an arbitrary selected-category set == oracle filter of the cell model',
        shard_of=_shard_a, shards={'quick': 28, 'thorough': 28}, budget_s={'quick': 170, 'thorough': 1800}, untrace=UNTRACE,
        witnesses=[{'d': 0, 'b': [True] * N}, {'d': 1, 'b': [i % 2 == 0 for i in range(N)]}], min_confirmed=500,
